@@ -379,6 +379,17 @@ func (so *Sorts) structSort(n *types.Named, st *types.Struct) Sort {
 
 func (so *Sorts) structInfo(s Sort) *StructInfo { return so.structs[string(s)] }
 
+// elemKey names the heap component of slice/array elements of Go type t: named interface types (ast.Expr, ast.Stmt)
+// get their own component, so that Borno arrays ([]interface{}) can carry their own cell invariant.
+func (so *Sorts) elemKey(t types.Type) string {
+	if n, ok := t.(*types.Named); ok {
+		if _, isIface := n.Underlying().(*types.Interface); isIface {
+			return sanitize(so.shortTypeName(n))
+		}
+	}
+	return sanitize(string(so.sortOf(t)))
+}
+
 // tagOf returns a stable small integer for a dynamic type.
 func (so *Sorts) tagOf(t types.Type) int {
 	key := types.TypeString(t, nil)
